@@ -99,6 +99,8 @@ type Engine struct {
 	// results
 	Paths, Infeasible, Forks, MaxDepth int
 	Obligations, Discharged, Trivial   int
+	AbsDischarged                      int // discharged by the interval/order abstraction (subset of Discharged)
+	PipeRestarts                       int // incremental solver discarded after an error line (late-timeout cancellation)
 	Undecided     []Undecided
 	Cexs          []*Cex
 	cexPerLabel   map[string]int
@@ -136,7 +138,7 @@ func (e *Engine) startPath() {
 	e.pathAsserts = nil
 	e.trace = nil
 	e.abs = newAbs()
-	if e.pipe.Poisoned {
+	if e.pipe.Corrupt {
 		e.restartPipe(e.pipe.Logic)
 	}
 	e.pipe.PopAll()
@@ -181,6 +183,7 @@ func (e *Engine) addPC(c *term.Term) {
 	}
 	e.pc = append(e.pc, c)
 	e.abs.learn(c)
+	e.abs.ord.learn(c)
 }
 
 // feasible: pc ∧ c satisfiable? Unknown counts as feasible (sound: final
@@ -201,24 +204,47 @@ func (e *Engine) feasible(c *term.Term) bool {
 			return true
 		}
 	}
-	e.sync()
-	var r smt.Result
-	if e.pipe.Logic != "" && term.HasFP(c) {
-		e.restartPipe("")
-		e.sync()
+	r, m := e.pipeQuery(c, e.Opt.FeasTimeout, true)
+	if r == smt.Sat && m != nil {
+		e.addModel(m)
 	}
-	e.pipe.Push()
-	if !c.IsTrue() {
-		e.pipe.Assert(c)
-	}
-	r = e.pipe.Check(e.Opt.FeasTimeout)
-	if r == smt.Sat {
-		if m, err := e.pipe.Model(e.vars()); err == nil {
-			e.addModel(m)
-		}
-	}
-	e.pipe.Pop()
 	return r != smt.Unsat
+}
+
+// pipeQuery decides pc && c on the incremental solver (c == nil: pc alone).
+// If the pipe reports an error at any point (see smt.Pipe.Check: a late
+// timeout can cancel a push/pop/assert and corrupt the assertion stack), the
+// solver is restarted, the path condition re-asserted and the query repeated;
+// an answer is only ever taken from a pipe that has shown no error.
+func (e *Engine) pipeQuery(c *term.Term, timeout time.Duration, wantModel bool) (smt.Result, map[string]smt.ModelVal) {
+	for attempt := 0; attempt < 3; attempt++ {
+		if c != nil && e.pipe.Logic != "" && term.HasFP(c) {
+			e.restartPipe("")
+		}
+		e.sync()
+		e.pipe.Push()
+		if c != nil && !c.IsTrue() {
+			e.pipe.Assert(c)
+		}
+		r := e.pipe.Check(timeout)
+		var m map[string]smt.ModelVal
+		if r == smt.Sat && wantModel {
+			if mm, err := e.pipe.Model(e.vars()); err == nil {
+				m = mm
+			} else if !e.pipe.Corrupt {
+				// sat without a readable model: callers that need one treat it as unknown
+				e.pipe.Pop()
+				return smt.Sat, nil
+			}
+		}
+		e.pipe.Pop()
+		if !e.pipe.Corrupt {
+			return r, m
+		}
+		e.PipeRestarts++
+		e.restartPipe(e.pipe.Logic)
+	}
+	return smt.Unknown, nil
 }
 
 // enumerateFeasible finds the feasible alternatives of a many-way fork with
@@ -251,21 +277,12 @@ func (e *Engine) enumerateFeasible(alts []*term.Term, cand []int) []int {
 			rs = append(rs, alts[a])
 		}
 		disj := term.Or(rs...)
-		if e.pipe.Logic != "" && term.HasFP(disj) {
-			e.restartPipe("")
-		}
-		e.sync()
-		e.pipe.Push()
-		e.pipe.Assert(disj)
-		r := e.pipe.Check(e.Opt.FeasTimeout)
+		r, m := e.pipeQuery(disj, e.Opt.FeasTimeout, true)
 		var ev *term.Evaluator
-		if r == smt.Sat {
-			if m, err := e.pipe.Model(e.vars()); err == nil {
-				e.addModel(m)
-				ev = e.pool[len(e.pool)-1]
-			}
+		if r == smt.Sat && m != nil {
+			e.addModel(m)
+			ev = e.pool[len(e.pool)-1]
 		}
-		e.pipe.Pop()
 		if r == smt.Unsat {
 			break
 		}
@@ -595,24 +612,9 @@ func (e *Engine) recordCex(c *Cex) {
 
 // decide checks sat(pc ∧ extra): pipe first, then portfolio.
 func (e *Engine) decide(extra *term.Term, label string) (smt.Result, map[string]smt.ModelVal, string, string) {
-	if e.pipe.Logic != "" && term.HasFP(extra) {
-		e.restartPipe("")
-	}
-	e.sync()
-	e.pipe.Push()
-	if !extra.IsTrue() {
-		e.pipe.Assert(extra)
-	}
-	r := e.pipe.Check(e.Opt.PipeTimeout)
-	if r == smt.Sat {
-		m, err := e.pipe.Model(e.vars())
-		e.pipe.Pop()
-		if err == nil {
-			return smt.Sat, m, "z3new-pipe", ""
-		}
-		r = smt.Unknown
-	} else {
-		e.pipe.Pop()
+	r, m := e.pipeQuery(extra, e.Opt.PipeTimeout, true)
+	if r == smt.Sat && m != nil {
+		return smt.Sat, m, "z3new-pipe", ""
 	}
 	if r == smt.Unsat {
 		return smt.Unsat, nil, "z3new-pipe", ""
@@ -638,6 +640,15 @@ func (e *Engine) Assert(c *term.Term, label string) {
 		e.Trivial++
 		e.Obligations++
 		e.Discharged++
+		return
+	}
+	if e.abs.abool(c) == 1 {
+		// implied by interval/order facts that are conjuncts of the path
+		// condition (pc => c, so pc && !c is unsat): discharged without a solver call
+		e.Obligations++
+		e.Discharged++
+		e.AbsDischarged++
+		e.pathAsserts = append(e.pathAsserts, label)
 		return
 	}
 	site := e.site()
@@ -687,9 +698,8 @@ func (e *Engine) ReachTag(tag string) {
 		return
 	}
 	// first time: require a definite sat of the path condition
-	e.sync()
-	r := e.pipe.Check(e.Opt.PipeTimeout)
-	if r == smt.Unknown {
+	r, _ := e.pipeQuery(nil, e.Opt.PipeTimeout, false)
+	if r != smt.Sat && r != smt.Unsat {
 		rr, _, _, f := e.decide(term.True, "reach:"+tag)
 		r = rr
 		if f != "" {
